@@ -165,7 +165,7 @@ func genTwin(r *rand.Rand, focus string) *TwinParams {
 	inTxn := false
 	add := func(s TwinStep) { p.Steps = append(p.Steps, s) }
 	pred := func() (string, []TV) {
-		switch r.IntN(12) {
+		switch r.IntN(13) {
 		case 0:
 			return "k = ?", []TV{anykey()}
 		case 1:
@@ -188,6 +188,22 @@ func genTwin(r *rand.Rand, focus string) *TwinParams {
 			return p.Cols[0] + " IS NOT NULL AND k >= ?", []TV{anykey()}
 		case 10:
 			return "k = ? OR k = ?", []TV{anykey(), anykey()}
+		case 11:
+			// several bounds on the same side, often with the same operand: the window the
+			// table derives from them must still be what SQLite means
+			ops := []string{"<", "<=", ">", ">=", "="}
+			n := 2 + r.IntN(2)
+			a := anykey()
+			var terms []string
+			var args []TV
+			for i := 0; i < n; i++ {
+				terms = append(terms, "k "+ops[r.IntN(len(ops))]+" ?")
+				if r.IntN(3) == 0 {
+					a = anykey()
+				}
+				args = append(args, a)
+			}
+			return strings.Join(terms, " AND "), args
 		}
 		return "1", nil
 	}
